@@ -388,6 +388,11 @@ class ProgGen:
 
     def new_sig(self, name, rank):
         rng = self.rng
+        existing = [self.sigs[k] for k in NAMES if k in self.sigs and k != 'zqj' and (self.sigs[k].kind == 'def' or 'newcommand' in self.f)]
+        if existing and rng.random() < 0.3:
+            # the same calling convention as an earlier macro: the two can later be aliased to each other with \let
+            e = rng.choice(existing)
+            return Sig(e.kind, e.pre, list(e.ds), e.nargs, e.opt, rank)
         if rng.random() < 0.35 and 'newcommand' in self.f:
             nargs = rng.choice([0, 1, 1, 2, 3])
             opt = None
@@ -576,18 +581,46 @@ class ProgGen:
             return '\\begingroup ' + inner + '\\endgroup '
         return '{' + inner + '}'
 
+    @staticmethod
+    def conv(s):
+        """the calling convention of a signature: two names with the same convention can be aliased to each other"""
+        return (s.pre, tuple(s.ds), s.nargs, s.opt is not None)
+
     def let(self):
+        """\\let\\target=\\source.  The target is a fresh alias name, an alias that is re-aliased, or an EXISTING macro with the
+        same calling convention (the alias must then replace a meaning that may already have been used); with probability
+        1/2 the target is called right before and right after the \\let, with no group boundary in between."""
         rng = self.rng
         dfd = sorted(self.defined())
         src = rng.choice(dfd)
-        cands = [a for a in ALIASES if a not in self.sigs or self.sigs[a] is self.sigs[src]]
+        ssig = self.sigs[src]
+        cands = []
+        for a in ALIASES:
+            if a not in self.sigs:
+                cands.append(a)
+            elif self.conv(self.sigs[a]) == self.conv(ssig) and ssig.rank <= self.sigs[a].rank and a != src:
+                cands += [a, a]
+        for t in NAMES:
+            # an existing macro of higher rank (its new meaning only mentions macros of lower rank than the source: no recursion)
+            if t in self.sigs and t != src and t != 'zqj' and self.conv(self.sigs[t]) == self.conv(ssig) and ssig.rank < self.sigs[t].rank:
+                cands += [t, t, t]
         if not cands:
             return self.word()
         a = rng.choice(cands)
-        self.sigs[a] = self.sigs[src]
+        used_before = a in dfd
+        if a not in self.sigs:
+            self.sigs[a] = Sig(ssig.kind, ssig.pre, ssig.ds, ssig.nargs, ssig.opt, ssig.rank)
+        before = self.call(a) if used_before and rng.random() < 0.5 else ''
         self.scopes[-1].add(a)
+        if src in self.inner:
+            self.inner.add(a)
+        else:
+            self.inner.discard(a)
         eq = rng.choice(['', '=', ' = ', '= '])
-        return '\\let\\%s%s\\%s ' % (a, eq, src)
+        out = before + '\\let\\%s%s\\%s ' % (a, eq, src)
+        if before or rng.random() < 0.3:
+            out += self.call(a)
+        return out
 
     def expandafter(self):
         """\\expandafter\\X\\Y : \\Y is a fresh parameterless macro whose text supplies \\X's arguments"""
@@ -693,6 +726,9 @@ def corpus():
         # D52: ## in macros without parameter text, nested three deep
         P('\\def\\zqa {\\def\\zqb ##1{\\def\\zqc ####1{[##1|####1]}}}', '\\zqa ', '\\zqb x', '\\zqc y'),
         P('\\def\\zqa {\\def\\zqb {\\def\\zqc ####1{<####1>}}}', '\\zqa ', '\\zqb ', '\\zqc y'),
+        # \let onto a name that exists and has been used: the new meaning must be seen at once (no group boundary in between)
+        P('\\def\\zqa {1}', '\\def\\zqc {2}', '\\zqa ', '\\let\\zqa \\zqc ', '\\zqa '),
+        P('\\def\\zqa #1{(#1)}', '\\def\\zqc #1{[#1]}', '\\zqa {x}\\let\\zqa =\\zqc \\zqa {x}', '{\\zqa y\\let\\zqa \\zqc \\zqa y}'),
         # D50: \expandafter in front of a macro whose expansion is empty
         P('\\def\\zqa #1{}', '\\def\\zqe #1{[#1]}', '\\expandafter\\zqe \\zqa AB'),
         P('\\def\\zqa #1#2#3#4#5#6#7#8#9{#9#8#7#6#5#4#3#2#1}', '\\zqa 123456789'),
@@ -759,6 +795,10 @@ def run_program(src, fresh=True):
         except Exception as e:
             return canon_exc(e)
         finally:
+            # the clean-up must not be interrupted by the per-case alarm (a half-restored shared document would leak
+            # definitions into every later program): the pending alarm is cancelled first
+            import signal
+            signal.alarm(0)
             del c.contexts[1:]
             c.mapMethods()
             g = c.contexts[0]
@@ -773,24 +813,34 @@ def impl(case, aux):
     st = case.stream
     if st == 'prog':
         E['n'] += 1
-        if aux and aux[0] == 'err:fuel' and case.origin == 'gen':
-            # the model predicts a blow-up (only malformed / non-NF programs): give the real interpreter 1 s, not CASE_TIMEOUT
-            from framework import time_limit, CaseTimeout
-            try:
-                with time_limit(1):
-                    return run_program(''.join(chr(int(x)) for x in case.line.split()[1:]), fresh=False)
-            except CaseTimeout:
-                return 'err:timeout'
         from framework import time_limit, CaseTimeout
         src = ''.join(chr(int(x)) for x in case.line.split()[1:])
+        spec_defined = len(aux) > 2 and aux[2].startswith('ok:')
+        if aux and aux[0] == 'err:fuel' and case.origin == 'gen' and not spec_defined:
+            # the model predicts a blow-up and the Spec is undefined (malformed / non-NF programs only): give the real
+            # interpreter 1 s, not CASE_TIMEOUT; the outcome is compared by error class with the model only
+            try:
+                with time_limit(1):
+                    return run_program(src, fresh=False)
+            except CaseTimeout:
+                FRAG_STATS['timeouts_predicted_blowup'] = FRAG_STATS.get('timeouts_predicted_blowup', 0) + 1
+                E['pdoc'] = None          # an interrupted run may leave class-level state behind: the shared document is rebuilt
+                return 'err:timeout'
         try:
             return run_program(src, fresh=(case.origin != 'gen' or E['n'] % 8 == 0))
         except CaseTimeout:
-            # a time-out on a program for which the model predicts a normal result is first retried (fresh document,
-            # generous limit): on a loaded machine, or right after a blow-up case has been garbage collected, 4 s can pass
-            if not (aux and aux[0].startswith('ok')) or E.get('retries', 0) >= 5:
+            # a time-out on a program for which the Spec or the model predicts a normal result is never taken at face value:
+            # it is re-run on a fresh document with a 15x limit (on a loaded machine, or right after a blow-up case has been
+            # garbage collected, 4 s can pass).  At most 5 re-runs per check, so that a code change that makes many programs hang
+            # cannot stall the check; further time-outs are reported as UNCONFIRMED and judged as "no observation".
+            FRAG_STATS['timeouts_first_attempt'] = FRAG_STATS.get('timeouts_first_attempt', 0) + 1
+            E['pdoc'] = None
+            if not (spec_defined or (aux and aux[0].startswith('ok'))):
                 return 'err:timeout'
-            E['retries'] = E.get('retries', 0) + 1      # at most 5 retries per run: a code change that makes many programs hang must not stall the check
+            if E.get('retries', 0) >= 5:
+                FRAG_STATS['timeouts_unconfirmed'] = FRAG_STATS.get('timeouts_unconfirmed', 0) + 1
+                return 'err:timeout-unconfirmed'
+            E['retries'] = E.get('retries', 0) + 1
             import gc
             gc.collect()
             try:
@@ -847,6 +897,11 @@ def _norm(s):
 
 def judge(o):
     impl_, model, spec = _norm(o.impl), _norm(o.model), _norm(o.spec)
+    if o.case.stream == 'prog' and impl_ == 'err:timeout-unconfirmed':
+        # a time-out that could not be re-run with the long limit (more than 5 in this run): no observation, no verdict
+        o.corr_ok = o.prop_ok = True
+        o.note = 'unconfirmed time-out: not judged'
+        return
     if o.case.stream == 'prog':
         # errors: class only (the model does not name Python's exception types at document level)
         ie = 'err' if impl_.startswith('err') else impl_
@@ -886,6 +941,7 @@ def extra_checks(ctx):
     """no further oracle: reports how many generated programs lie in the fragment for which program-level equality is PROVED
     (run_eq_texRun_language_partial) among those on which the Spec evaluator is defined"""
     ctx.say('programs with the Spec defined: %(prog_spec_defined)d, of which inside the proved fragment: %(prog_in_proved_fragment)d' % FRAG_STATS)
+    ctx.say('time-outs: %d with a predicted blow-up (1 s limit), %d others (re-run with a 60 s limit)' % (FRAG_STATS.get('timeouts_predicted_blowup', 0), FRAG_STATS.get('timeouts_first_attempt', 0)) + ('; %d time-outs left unjudged (re-run budget used up)' % FRAG_STATS['timeouts_unconfirmed'] if FRAG_STATS.get('timeouts_unconfirmed') else ''))
     return [], dict(FRAG_STATS, evaluations=0, distinct_nontrivial=0, samples=[], stream='prog (fragment coverage)')
 
 
